@@ -64,6 +64,10 @@ def r1(ctx, F):
             ctx.saw(f)
             n += 1
             step, cdef, is_default, place = section_step(f)
+            if step is None:
+                # the section walk may have been moved into a helper (`advance_sections(.., section_length)`): look at the inlined body
+                import inline
+                step, cdef, is_default, place = section_step(inline.inlined(F, f))
             skill = f.self_adt.split('::')[-1]
             if step is None:
                 ctx.violation('C16-R1', '%s:step' % f.self_adt, 'cannot identify the section-length step of %s::process' % skill, f.where())
@@ -162,6 +166,9 @@ def r2(ctx, F):
         ctx.saw(fn)
         rv = prov.prov_of(fn).return_value()
         sadt = '%s::strains::%sStrains' % (mode, CAP[mode])
+        # a private constructor of the result type (`CatchStrains::of_converted(difficulty, &map)`) is read through
+        import combin as _cb
+        rv = _cb.expand(F, prov.inline_all(F, rv, depth=2, _seen=(fn.path,), only=lambda f_: (f_.get('impl_adt') or '') == sadt and not f_.get('trait')))
         lits = [x for x in prov.walk(rv) if x[0] == 'agg' and x[2] == sadt]
         if len(lits) != 1:
             ctx.violation('C16-R2', '%s:strains:shape' % mode, 'cannot identify the %s literal' % sadt, fn.where())
@@ -192,12 +199,26 @@ def r2(ctx, F):
             ctx.require(good, 'C16-R2', '%s:strains:%s' % (mode, fld), '%sStrains.%s = skill.into_current_strain_peaks().into_vec() of DifficultyValues::calculate(difficulty, converted map)' % (CAP[mode], fld),
                         fn.where(), bad='%sStrains.%s is `%s`' % (CAP[mode], fld, prov.show(s, maxdepth=5)[:300]))
         # difficulty() uses the same DifficultyValues::calculate with the same two slots
-        dcalls = [(bi, t) for bi, t in dfn.calls() if t['func'].get('name') == 'calculate' and (t['func'].get('impl_adt') or '').startswith(mode + '::difficulty')]
-        same = len(dcalls) == 1 and (not dv_calls_strains or dcalls[0][1]['func'].get('path') in dv_calls_strains)
+        # the call may sit in difficulty() itself, in a closure it maps over the conversion result, or in a private second-phase helper
+        import entries as _e
+        cands = [dfn] + list(F.all_closures_of(dfn))
+        for g in list(cands):
+            for _, t in g.calls():
+                h = F.fn(t['func'].get('path') or '') if t['func'].get('local') and not t['func'].get('trait') else None
+                if h is not None and h not in cands and h.path.startswith(mode + '::difficulty') and h.name != 'calculate':
+                    cands.append(h)
+        dcalls = [(g, bi, t) for g in cands for bi, t in g.calls()
+                  if t['func'].get('name') == 'calculate' and (t['func'].get('impl_adt') or '').startswith(mode + '::difficulty')]
+        same = len(dcalls) == 1 and (not dv_calls_strains or dcalls[0][2]['func'].get('path') in dv_calls_strains)
         if same:
-            a = prov.prov_of(dfn).call_args(dcalls[0][0])
-            import entries as _e
-            same = as_param_path(a[0]) == (1, ()) and _e.from_convert_ref(F, a[1])
+            g, bi, t = dcalls[0]
+            a = prov.prov_of(g).call_args(bi)
+            dpp = as_param_path(a[0])
+            is_diff = dpp is not None and dpp[1] == () and (g is dfn and dpp[0] == 1 or 'Difficulty' in ((g.j.get('inputs') or [{}] * dpp[0])[dpp[0] - 1].get('s') or '')
+                                                           or g.kind == 'Closure')
+            mpp = as_param_path(a[1])
+            map_ok = _e.from_convert_ref(F, a[1]) or (mpp is not None and mpp[1] == () and g is not dfn and not _e.always_converted(F, g, mpp[0]))
+            same = bool(is_diff) and map_ok
         ctx.require(same, 'C16-R2', '%s:same-calculate' % mode, 'difficulty() and strains() both run %s::difficulty::DifficultyValues::calculate(difficulty, converted map)' % mode,
                     dfn.where(), bad='%s::difficulty::difficulty does not compute its skills with the same DifficultyValues::calculate(difficulty, converted map) call as strains()' % mode)
     ctx.floor('C16-R2', nfields, 11, 'exported strain vectors')
@@ -269,11 +290,13 @@ def r6_same_sectioning(ctx, F):
             out.append(it)
         return out
 
+    import inline
     by_mode = {}
     for f in F.fns:
         if f.impl_trait == TRAIT and f.name == 'process':
             m = mode_of(f.self_adt or '')
             if m:
+                f = inline.inlined(F, f)            # helpers the section walk may have been moved into are read through
                 items = norm(fp.fingerprint(f), f.self_adt)
                 # only the sectioning part: everything before the skill-specific strain evaluation
                 cut = [i for i, it in enumerate(items) if it.startswith('call:SKILL::strain_value_at')]
